@@ -3,6 +3,7 @@ import NutsModel.C09.Ambassador
 import NutsModel.C09.Entry
 import NutsModel.C09.Manager
 import NutsModel.C09.Commit
+import NutsModel.C09.Maintain
 import NutsModel.Facts.C09
 import NutsModel.Facts.C10
 open Lean Nuts.Drv Nuts.C10 Nuts.C09 Nuts
@@ -222,6 +223,22 @@ def step (st : St) (j : Json) : St × List String :=
         | .ok p => (st, [s!"{hdr} ok kid={p.kid} prevs=[{String.intercalate "," (p.prevs.map shortRef)}]"])
         | .err e => (st, [s!"{hdr} err:{e}"])
         | .panic x => (st, [s!"{hdr} panic:{x}"])
+    else if via == "rmvm" then
+      -- Manager.RemoveVerificationMethod: `doc` = view of the resolved latest version (null when the lookup failed)
+      let c := cfgFor none ""
+      let cur : NDoc := match nextO with | some d => d | none => { id := "", idID := "" }
+      match managerRemoveVM c st.store hasF (jBool j "svcOk") (jStr j "id") cur (jStr j "rm") with
+      | .ok (some p) =>
+        let shape := s!"doc=vm[{String.intercalate "," (p.doc.vms.map (·.id))}]ci[{String.intercalate "," (p.doc.capInv.map (·.id))}]"
+        (st, [s!"{hdr} ok kid={p.kid} prevs=[{String.intercalate "," (p.prevs.map shortRef)}] {shape}"])
+      | .ok none => (st, [s!"{hdr} ok nothing"])
+      | .err e => (st, [s!"{hdr} err:{e}"])
+      | .panic x => (st, [s!"{hdr} panic:{x}"])
+    else if via == "iscommitted" then
+      match managerIsCommitted st.store (jStr j "id") (jStr j "hash") with
+      | .ok b => (st, [s!"{hdr} ok committed={b}"])
+      | .err e => (st, [s!"{hdr} err:mgr:is-committed:{e}"])
+      | .panic x => (st, [s!"{hdr} panic:{x}"])
     else if via == "new" then
       -- Manager.NewDocument for the key `key` (DID id string = `b58`, the harness's own base58 thumbprint), then Commit(created)
       let k := jStr j "key"
